@@ -256,6 +256,26 @@ def exitTest2 (tol : Rat) (r : List Cell) : Bool :=
   | some s => decide (s < tol * tol)
   | none => false
 
+/-! ### Options in force at one `solve_steady` call -/
+
+/-- `Flags.update_from_kwargs`: a per-call override (`none` = keyword not given) wins over the flag the model was
+created with -- also when the override is `False` -/
+def resolveFlag (override : Option Bool) (created : Bool) : Bool := override.getD created
+
+structure Flags where
+  linear : Bool
+  flat : Bool
+  deriving Repr, DecidableEq
+
+/-- `Simultaneous.resolve_flags(linear=…, flat=…)` -/
+def resolveFlags (created : Flags) (ovLinear ovFlat : Option Bool) : Flags :=
+  ⟨resolveFlag ovLinear created.linear, resolveFlag ovFlat created.flat⟩
+
+/-- the tolerance of the exit test at one call (`create_solver_settings_for_*`): the user's `func_tolerance` / `tol`
+from `solver_settings` when given, else the model's equality tolerance *at that call*; a pure function of the two
+arguments of the call (no memory of earlier calls) -/
+def tolInForce (user : Option Rat) (equality : Rat) : Rat := user.getD equality
+
 /-! ### Write-back: `extract_levels`, `extract_changes`, `_update_variant_with_final_guess` -/
 
 def writeBack (loggable : Nat → Bool) (ev : Evaluator) (g : List Rat) (v : Variant) : Variant :=
